@@ -3,6 +3,7 @@
 # harness. A module that fails to build here is reported by its own check, not by setup.
 cd "$(dirname "$0")"
 export GOFLAGS=-mod=mod GOPROXY=off GOSUMDB=off GOTOOLCHAIN=local
+./tools/regen.sh 2>&1 | tail -5
 (cd lean && lake build 2>&1 | tail -3)
 (cd lean && for f in Driver/*.lean; do n=$(basename $f .lean); exe=$(grep -B1 "root = \"Driver.$n\"" lakefile.toml | grep name | sed 's/.*"\(.*\)"/\1/'); [ -n "$exe" ] && lake build $exe 2>&1 | tail -1; done)
 (cd harness && for d in cmd/*/; do n=$(basename $d); go build -tags verif -o bin/$n ./cmd/$n || echo "setup: $n does not build"; done)
